@@ -215,6 +215,11 @@ def finish(rep, level='proof', extra_cov=None):
         if line not in printed:
             print(line)
             printed.add(line)
+    reproduced = {e.get('key') for _o, e in known}
+    rep.not_reproduced = [e.get('key') for e in open_f if e.get('key') not in reproduced]
+    for k in rep.not_reproduced:
+        # informational: the entry may be stale, or its class lies outside the domain explored by this tier
+        print('NOTE: known finding %s was not reproduced in this run (tier %s)' % (k, rep.tier))
     code = 0
     rdir = os.path.join(os.environ.get('VERIF_REPLAY_DIR') or os.path.join(VERIF, 'replays'), rep.prop)
     if os.path.isdir(rdir):
@@ -277,6 +282,7 @@ def write_evidence(rep, level, nviol, known, extra_cov):
         'functions_under_contract': fns,
         'solver_seconds': round(sum(o.seconds for o in rep.obls if o.kind == 'smt'), 3),
         'known_findings': known_keys,
+        'known_findings_not_reproduced_in_this_run': list(getattr(rep, 'not_reproduced', [])),
         'dropped_by_front_end': rep.dropped,
         'bounded': [{k: v for k, v in b.items() if k != 'failures'} | {'n_failures': len(b.get('failures', []))}
                     for b in rep.bounded] or [{'ran': False}],
